@@ -157,6 +157,9 @@ def b_z3(a):
     return a.e
 
 
+_PRED_CACHE = {}
+
+
 class SChar:
     """One symbolic character: value = fmap[var] (fmap None = identity)."""
 
@@ -178,8 +181,15 @@ class SChar:
     def values(self):
         return [self.value_of(b) for b in self.var.alpha]
 
-    def pred(self, f):
-        """unary condition: f(value) for CPython's own answer on each alphabet member"""
+    def pred(self, f, cache_key=None):
+        """unary condition: f(value) for CPython's own answer on each alphabet member.
+        cache_key: hashable identifying f (only for long-lived predicates)"""
+        if cache_key is not None:
+            k = (cache_key, self.var.idx, self._fk)
+            r = _PRED_CACHE.get(k)
+            if r is None:
+                r = _PRED_CACHE[k] = mk_unary(self.var, [b for b in self.var.alpha if f(self.value_of(b))])
+            return r
         return mk_unary(self.var, [b for b in self.var.alpha if f(self.value_of(b))])
 
     def map(self, f):
